@@ -13,6 +13,8 @@
   `with Timer(..)` (body kept), docstrings.
 """
 import ast
+import functools
+import sys
 import os
 import sys
 import hashlib
@@ -515,6 +517,57 @@ _NATIVE_EXC = (KeyError, IndexError, AttributeError, TypeError, ValueError, Zero
                EOFError, OSError)
 
 
+def _is_model_value(v, depth=0):
+    """one of the verifier's model objects (not the scalar proxies, whose operators mirror int/bool/float)"""
+    if isinstance(v, (SymInt, SymBool, SymReal)) or v is None or isinstance(v, (int, float, str, bytes)):
+        return False
+    if isinstance(v, (list, tuple)) and depth < 2:
+        return any(_is_model_value(x, depth + 1) for x in v[:8])
+    if isinstance(v, dict) and depth < 2:
+        return any(_is_model_value(x, depth + 1) for x in list(v.values())[:8])
+    mod = getattr(type(v), "__module__", "") or ""
+    return mod.split(".")[0] in ("pyvc", "contracts", "spec")
+
+
+_DATA_MODEL_MODULES = ("pyvc.models", "pyvc.npmodel", "pyvc.absarr", "pyvc.timemodel", "pyvc.zarr")
+
+
+def _is_data_model(v):
+    """a model of program *data* (symbolic string, array, file, interpreted object, generator), as opposed to the
+    interpreter's own function / class / module values"""
+    if isinstance(v, (Obj, GenVal)):
+        return True
+    if isinstance(v, (SymInt, SymBool, SymReal)) or v is None or isinstance(v, (int, float, str, bytes, type)):
+        return False
+    mod = getattr(type(v), "__module__", "") or ""
+    return mod in _DATA_MODEL_MODULES or mod.split(".")[0] in ("contracts", "spec")
+
+
+def _is_engine_callable(f):
+    """a callable that belongs to the verifier (model function, method of a model object, contract lambda)"""
+    mod = getattr(f, "__module__", None) or ""
+    if mod.split(".")[0] in ("pyvc", "contracts", "spec", "__main__", "tools"):
+        return True
+    selfv = getattr(f, "__self__", None)
+    if selfv is not None and not isinstance(selfv, type(sys)) and \
+            (_is_model_value(selfv) or isinstance(selfv, (list, dict, set, tuple, str, bytes, bytearray))):
+        # methods of model objects are models; methods of real containers (list.append, dict.get, ...) keep
+        # reference semantics, which is also what Python does with the modelled objects
+        return True
+    if isinstance(f, functools.partial):
+        return _is_engine_callable(f.func)
+    return False
+
+
+def _native_failure(e, operands, what):
+    """A Python exception escaped from a native operation.  If a model object was involved, the exception may be
+    the model's gap rather than the program's behaviour: undecided (Unsupported), never a verdict."""
+    if any(_is_model_value(o) for o in operands):
+        return Unsupported("%s on a model object raised %s (%s): not modelled" % (what, type(e).__name__, str(e)[:80]))
+    return ProgExc(type(e), what)
+
+
+
 class LoopSpec(object):
     """Inductive invariant for one loop (function qualname + ordinal in source order).
 
@@ -920,12 +973,21 @@ class Interp(object):
         if isinstance(selfv, str) and getattr(f, "__name__", "") == "join":
             from . import models as _M
             return _M.m_str_join(self, selfv, args[0])
+        if not _is_engine_callable(f):
+            # a native function (builtin / library) without a model, applied to model objects: its Python-level
+            # behaviour (hashing by identity, duck typing) is not the modelled type's semantics -> undecided
+            for a in list(args) + list(kwargs.values()):
+                if _is_data_model(a) or (isinstance(a, (list, tuple, set, frozenset)) and
+                                         any(_is_data_model(x) for x in list(a)[:8])):
+                    raise Unsupported("native %s applied to model objects is not modelled"
+                                      % getattr(f, "__qualname__", getattr(f, "__name__", f)))
         try:
             return f(*args, **kwargs)
         except (Unsupported, PathEnd, ProgExc, Drift, _Return):
             raise
         except _NATIVE_EXC as e:
-            raise ProgExc(type(e), "native %s" % getattr(f, "__name__", f))
+            raise _native_failure(e, list(args) + list(kwargs.values()) + [getattr(f, "__self__", None)],
+                                  "native %s" % getattr(f, "__name__", f))
 
     def call_function(self, f, args, kwargs):
         hook = self.contracts_at_calls.get(f.qualname)
@@ -1509,7 +1571,7 @@ class Interp(object):
         try:
             o[k] = val
         except _NATIVE_EXC as e:
-            raise ProgExc(type(e), "setitem")
+            raise _native_failure(e, [o] if not isinstance(o, (list, dict)) else [], "setitem")
 
     # ------------------------------------------------------------------ expressions
     def truth(self, v):
@@ -1527,7 +1589,7 @@ class Interp(object):
         try:
             return bool(v)
         except _NATIVE_EXC as e:
-            raise ProgExc(type(e), "truth")
+            raise _native_failure(e, [v], "truth")
 
     def binop(self, opt, l, r, inplace=False):
         m = self.models.get(("binop", type(l))) or self.models.get(("binop", type(r)))
@@ -1545,7 +1607,7 @@ class Interp(object):
         try:
             return f(l, r)
         except _NATIVE_EXC as e:
-            raise ProgExc(type(e), "binop")
+            raise _native_failure(e, [l, r], "binop")
 
     def compare(self, opt, l, r):
         if opt is ast.Is:
@@ -1564,7 +1626,7 @@ class Interp(object):
         try:
             return _CMPOPS[opt](l, r)
         except _NATIVE_EXC as e:
-            raise ProgExc(type(e), "compare")
+            raise _native_failure(e, [l, r], "compare")
 
     def _is(self, l, r):
         if l is None or r is None:
@@ -1601,7 +1663,7 @@ class Interp(object):
         try:
             return x in container
         except _NATIVE_EXC as e:
-            raise ProgExc(type(e), "in")
+            raise _native_failure(e, [container] if not isinstance(container, (list, dict, tuple, set)) else [], "in")
 
     def _objkey_find(self, d, k):
         """dict lookup with an instance key whose class defines __eq__: equal keys are found by search
@@ -1648,7 +1710,7 @@ class Interp(object):
         try:
             r = o[k]
         except _NATIVE_EXC as e:
-            raise ProgExc(type(e), "getitem")
+            raise _native_failure(e, [o] if not isinstance(o, (list, dict, tuple, str, bytes)) else [], "getitem")
         if isinstance(o, list) and isinstance(k, slice):
             self._note_alloc(r)
         return r
